@@ -31,6 +31,11 @@ def observeCancel (x : S) : Option S :=
 def step (x : S) (w : List String) : Option (S × String × List String) :=
   match w with
   | ["run", _, _, _, _, _] => some ({}, "ok", [])
+  | ["erronly", c, _] => do
+    -- BB.Attempt.start count true: a context that has already ended (whatever way it reports it) gets a closed, empty channel
+    let c ← c.toNat?
+    let s0 := start c true
+    some ({}, s!"values={s0.sent.length} {if s0.closed then "closed" else "not-closed"}", ["pre_cancelled_err_only_context"])
   | ["tiny", _, _, _, _] =>
     -- BB.Props.C20: the values are non-decreasing whatever stamps the ticker delivers (`forwarded_stamps_nondecreasing`), never
     -- more than count
